@@ -594,6 +594,19 @@ ResyncAfterDrift ==
 
 NoForeverBlock == Quiescent => (call = None /\ rl = "idle")
 
+(* the pusher is LIVE: PushTry stands for pushClient called by the tracer's    *)
+(* goroutine right after a source change AND by the push ticker that makes up *)
+(* for the debounce ("too often": a change that follows a push or a reply by  *)
+(* less than PushInterval is left to the ticker).  The model gives PushTry no *)
+(* clock: it is enabled whenever a push is needed, and quiescence means it is *)
+(* not.  That is an ASSUMPTION about the code (the ticker lives as long as    *)
+(* the listener, across every reconnect); it is an invariant here by          *)
+(* construction and is JUDGED on the real pair, with the real debounce and    *)
+(* the real ticker, by TraceRpcSync.tla: at an observed quiescence with both  *)
+(* sides handshaken no snapshot is newer than lastPushData.                   *)
+PushDeliveredAtQuiescence ==
+  (Quiescent /\ PushEnabled /\ srvHs /\ lock = "free") => ~PushNeeded
+
 ReplyTruthful == TRUE   \* the reply carries the source's result by construction; judged on traces
 
 ReadYourWrite == obs # None => obs.covers
